@@ -2,6 +2,7 @@ package props
 
 import (
 	"fmt"
+	consensustypes "github.com/palomachain/paloma/v2/x/consensus/types"
 	"strings"
 
 	"cosmossdk.io/math"
@@ -15,7 +16,11 @@ import (
 //
 // Scenario: after the bridge is up, only a tape-chosen subset of relayers keeps attesting (possibly with
 // conflicting evidence), so relayed messages never reach 2/3 and sit in the queue until they are pruned.
-func c13Prune(r *core.Run) []*core.Violation {
+func c13Prune(r *core.Run) []*core.Violation { return pruneWorld(r, "C13") }
+
+// pruneWorld runs the prune scenario for C13 (its own oracle) or for C09 (block production must survive the pruning
+// of every kind of stale message).
+func pruneWorld(r *core.Run, prop string) []*core.Violation {
 	t := r.Tape
 	r.Profile = "prune"
 	cfg := BridgeCfg{Chains: []ChainSpec{{"eth-main", 1}}}
@@ -28,8 +33,19 @@ func c13Prune(r *core.Run) []*core.Violation {
 	}
 	w := NewJobWorld(r, cfg)
 	if w.Aborted {
-		w.abortNote("C13")
+		w.abortNote(prop)
 		return nil
+	}
+	// the relayers report a failed delivery (error data) instead of a transaction in some runs
+	if t.Draw(3) == 1 {
+		for _, p := range w.Pigeons {
+			p.Hooks.Relay = func(p *Pigeon, chain string, m *consensustypes.MessageWithSignatures) bool {
+				if p.send("errordata", &consensustypes.MsgSetErrorData{Metadata: p.meta(), MessageID: m.Id, QueueTypeName: queueName(chain), Data: []byte("execution reverted")}) {
+					r.Stats.Probe("relay_reported_error")
+				}
+				return true
+			}
+		}
 	}
 	// who keeps attesting: none / below 10% / between 10% and 2/3
 	var attesters []int
@@ -99,6 +115,9 @@ func c13Prune(r *core.Run) []*core.Violation {
 				continue
 			}
 			delivered := q.Raw.PublicAccessData != nil || q.Raw.ErrorData != nil
+			if q.Raw.ErrorData != nil {
+				r.Stats.Probe("c13_pruned_with_error_report")
+			}
 			att := map[string]bool{}
 			sum := math.ZeroInt()
 			for _, e := range q.Raw.Evidence {
@@ -145,8 +164,15 @@ func c13Prune(r *core.Run) []*core.Violation {
 		jailedBefore = now
 		prevE = w.eligibility()
 	}
-	w.abortNote("C13")
-	if r.Stats.Probes["c13_pruned_message"] > 0 {
+	if prop == "C09" {
+		viols = nil
+		if v := w.abortViolation(); v != nil {
+			viols = append(viols, v)
+		}
+	} else {
+		w.abortNote(prop)
+	}
+	if r.Stats.Probes["c13_pruned_message"] > 0 || (prop == "C09" && w.Aborted) {
 		r.Stats.Probe("target")
 	}
 	r.Sample = []string{fmt.Sprintf("prune profile: attesters %v (split=%v), %d blocks: pruned %d (undelivered %d, contested without evidence %d, below 10%% %d, 10%% or more %d)", attesters, split, r.Blocks,
